@@ -196,9 +196,9 @@ type World struct {
 	// miner-type nodes the NUT knows (node registry) that are in no magic block of this chain
 	// (members of another / a later magic block, or removed by a view change)
 	OutsideMiners []*Peer
-	OldSharders   []*Peer            // sharders of the older magic block only (WorldCfg.OldMBStart)
+	OldSharders   []*Peer           // sharders of the older magic block only (WorldCfg.OldMBStart)
 	OldMB         *block.MagicBlock // nil unless OldMBStart > 0
-	Self     *Peer
+	Self          *Peer
 
 	mu  sync.Mutex
 	Out []Captured
